@@ -205,6 +205,8 @@ class Facts:
         if not data.get("_renames_applied"):
             data["_renames_applied"] = True
             renames.apply_fields(data)      # ... and so is a private field
+            renames.apply_consts(data)      # ... or a private constant
+            renames.apply_statics(data)     # ... or a private static
             renames.apply(data)             # a function that only changed its name is read under the name the rules know
         self.data = data
         self.config = data.get("_config")
